@@ -12,6 +12,9 @@ and promises (numbered variables):
     K r k          new register: r + k   (k an integer)
     M r k          new register: r * k
     N r            new register: −r
+    X i k          new register: promise i * k (or k * promise i)
+    PA i j | PS i j | PK i k | KP k i | KS k i | RA r i
+                   promise i + promise j, promise i − promise j, promise i + k, k + promise i, k − promise i, r + promise i
     S i int k | S i var j | S i poly r     promise i is settled
     Q r            `_substitute_known` in place; prints the register
     W r            prints the outcome of `wait()` on a copy of the register
@@ -57,6 +60,15 @@ def polyOp (st : PSt) (toks : List String) : Option PSt :=
   | ["N", r] => do
     let p ← st.regs[(← r.toNat?)]?
     pure { st with regs := st.regs.push (neg p) }
+  | ["X", i, k] => do pure { st with regs := st.regs.push (mulConst (ofVar (← i.toNat?)) (← pInt k)) }
+  | ["PA", i, j] => do pure { st with regs := st.regs.push (addEst st.known (addEst st.known zero (← i.toNat?)) (← j.toNat?)) }
+  | ["PS", i, j] => do pure { st with regs := st.regs.push (addEst st.known (mkDict [((← j.toNat?), -1)] 0) (← i.toNat?)) }
+  | ["PK", i, k] => do pure { st with regs := st.regs.push (addConst (addEst st.known zero (← i.toNat?)) (← pInt k)) }
+  | ["KP", k, i] => do pure { st with regs := st.regs.push (addEst st.known (addConst zero (← pInt k)) (← i.toNat?)) }
+  | ["KS", k, i] => do pure { st with regs := st.regs.push (addConst (mkDict [((← i.toNat?), -1)] 0) (← pInt k)) }
+  | ["RA", r, i] => do
+    let p ← st.regs[(← r.toNat?)]?
+    pure { st with regs := st.regs.push (addEst st.known p (← i.toNat?)) }
   | ["S", i, "int", k] => do pure { st with known := st.known ++ [((← i.toNat?), .int (← pInt k))] }
   | ["S", i, "var", j] => do pure { st with known := st.known ++ [((← i.toNat?), .var (← j.toNat?))] }
   | ["S", i, "poly", r] => do
